@@ -11,13 +11,15 @@ PROPS = {
             "quick": [{"harness": "minkowski", "args": ["--pmax", 3, "--qmax", 3, "--dpmax", 3, "--dqmax", 2]},
                       {"harness": "minkowski", "args": ["--pk", 4, "--part", "base", "--pmax", 3, "--qmax", 3]},
                       {"harness": "minkowski", "args": ["--part", "mag", "--mpmax", 3, "--mqmax", 2, "--div", 2048]},
-                      {"harness": "minkowski", "args": ["--part", "long"]}],
+                      {"harness": "minkowski", "args": ["--part", "long"]},
+                      {"harness": "minkowski", "args": ["--part", "base", "--qboard", "collinear", "--pmax", 3, "--qmax", 4]}],
             "thorough": [{"harness": "minkowski", "args": ["--part", "base", "--pmax", 4, "--qmax", 4]},
                          {"harness": "minkowski", "args": ["--part", "empty", "--pmax", 4, "--qmax", 4]},
                          {"harness": "minkowski", "args": ["--part", "D", "--dpmax", 3, "--dqmax", 3]},
                          {"harness": "minkowski", "args": ["--pk", 4, "--part", "base", "--pmax", 4, "--qmax", 4]},
                          {"harness": "minkowski", "args": ["--part", "mag", "--mpmax", 3, "--mqmax", 3, "--div", 8192]},
-                         {"harness": "minkowski", "args": ["--part", "long"]}],
+                         {"harness": "minkowski", "args": ["--part", "long"]},
+                         {"harness": "minkowski", "args": ["--part", "base", "--qboard", "collinear", "--pmax", 4, "--qmax", 4]}],
         },
         "rule": "pattern = every ordered tuple of 2..3 (thorough 2..4) distinct points of the pattern board {(-10,-6),(9,-8),(12,7),(-3,11),(2,-1),(-12,4)} (also multiplied by 4), "
                 "path = every ordered tuple of 1..3 (thorough 1..4) distinct points of the first 6 points of board PS, every rotation, direction, non-convex and self-intersecting order included; "
